@@ -150,4 +150,21 @@ def transportOK (r : R) : List ROp → Prop
   | [] => True
   | op :: ops => fits r op ∧ ∀ r' o, step r op = .ok (r', o) → transportOK r' ops
 
+
+/-- executable form of `fits` / `transportOK` (used to check concrete examples by evaluation) -/
+def fitsb (r : R) : ROp → Bool
+  | .net (.data d) =>
+    match request r with
+    | some (_, len, min) => decide (min ≤ d.length) && decide (d.length ≤ len)
+    | none => true
+  | _ => true
+
+def transportOKb (r : R) : List ROp → Bool
+  | [] => true
+  | op :: ops =>
+    fitsb r op &&
+    match step r op with
+    | .ok (r', _) => transportOKb r' ops
+    | _ => true
+
 end Percival.Model.NetbufRead
